@@ -28,6 +28,8 @@ def headerL (E : Env) (p : Prefs) : Bytes :=
 inductive LOp
   | block (addr : Nat) (data : Array UInt8)
   | save (addr : Nat) (k : Nat)
+  | attach (addr : Nat) (d : Array UInt8)      -- `LZ4F_initStream` with a CDict: `LZ4_resetStream_fast`, then the CDict's stream (prepared by `LZ4_loadDictSlow`) attached
+  | load (addr : Nat) (d : Array UInt8)        -- `LZ4F_compressBegin_usingDict`: `LZ4_loadDict` into the working stream
 
 def accelOf (p : Prefs) : Int := if p.level < 0 then -p.level + 1 else 1
 
@@ -40,6 +42,8 @@ def blockBytes (E : Env) (p : Prefs) (r : Option Bytes) (content : Bytes) : Byte
 def blocksOf (E : Env) (hashOf : Array UInt8 → Bool → Nat → Nat) (p : Prefs) : FastX.XState → List LOp → Bytes
   | _, [] => []
   | S, .save addr k :: rest => blocksOf E hashOf p (FastX.saveDict S addr k).1 rest
+  | S, .attach addr d :: rest => blocksOf E hashOf p (FastX.step hashOf S (.attach addr d true)).1 rest
+  | _, .load addr d :: rest => blocksOf E hashOf p (FastX.loadDict hashOf addr d false).1 rest
   | S, .block addr data :: rest =>
     let r := FastX.compress hashOf S addr data (accelOf p) (data.size - 1)
     blockBytes E p r.2 data.toList ++ blocksOf E hashOf p r.1 rest
@@ -47,6 +51,8 @@ def blocksOf (E : Env) (hashOf : Array UInt8 → Bool → Nat → Nat) (p : Pref
 def contentOf : List LOp → Bytes
   | [] => []
   | .save _ _ :: rest => contentOf rest
+  | .attach _ _ :: rest => contentOf rest
+  | .load _ _ :: rest => contentOf rest
   | .block _ data :: rest => data.toList ++ contentOf rest
 
 /-- the whole frame for a schedule, the LZ4 stream of the compression context being in state `S0` when the first block arrives (`{}` for a context that
@@ -56,5 +62,9 @@ def frameFrom (E : Env) (hashOf : Array UInt8 → Bool → Nat → Nat) (p : Pre
 
 /-- the whole frame for a schedule on a fresh context -/
 def frame (E : Env) (hashOf : Array UInt8 → Bool → Nat → Nat) (p : Prefs) (ops : List LOp) : Bytes := frameFrom E hashOf p {} ops
+
+/-- the same schedule written under an independent-blocks header (a CDict frame with independent blocks: every block is preceded by an `attach`) -/
+def frameFromI (E : Env) (hashOf : Array UInt8 → Bool → Nat → Nat) (p : Prefs) (S0 : FastX.XState) (ops : List LOp) : Bytes :=
+  header E p ++ blocksOf E hashOf p S0 ops ++ encLE 4 0 ++ (if p.contentChecksum then encLE 4 (E.hash (contentOf ops)) else [])
 
 end LZ4V.Model.FrameLinked
